@@ -345,7 +345,17 @@ impl Gen {
                 Kind::Fold(f2(rng), rng.range(0, 3), ins)
             }
             "zip" => Kind::Zip(pick_i(self, rng)?, pick_i(self, rng)?),
-            "mapref" => Kind::MapRef(rng.below(2) as u8, self.pick_node(w, rng, Ty::P)?),
+            "mapref" => {
+                // mostly a projection of a pair; sometimes the identity projection of an integer node,
+                // preferably of another map_ref (stacked projections)
+                if rng.chance(1, 4) {
+                    let refs: Vec<NodeId> = self.alive(w, Ty::I).into_iter().filter(|n| matches!(w.model.nodes[*n].kind, Kind::MapRef(..))).collect();
+                    let a = if !refs.is_empty() && rng.chance(2, 3) { *rng.pick(&refs) } else { pick_i(self, rng)? };
+                    Kind::MapRef(0, a)
+                } else {
+                    Kind::MapRef(rng.below(2) as u8, self.pick_node(w, rng, Ty::P)?)
+                }
+            }
             "mapp" => Kind::MapP(f2(rng), self.pick_node(w, rng, Ty::P)?),
             "mwo" => Kind::MapWithOld(f1(rng), pick_i(self, rng)?, rng.chance(2, 3)),
             "mwop" => Kind::MapWithOldPair(f1(rng), pick_i(self, rng)?, rng.chance(2, 3)),
@@ -533,13 +543,19 @@ impl Gen {
         let keep = rng.chance(3, 4);
         let proj = rng.below(2) as u8;
         self.plan.push_back(Action::Create(Kind::MapRef(proj, v)));
-        self.plan.push_back(Action::Create(Kind::Map(F1::Lin(1, 1), v + 1)));
+        // optionally a projection of the projection
+        let stacked = rng.below(3);
+        for k in 0..stacked {
+            self.plan.push_back(Action::Create(Kind::MapRef(0, v + 1 + k)));
+        }
+        let top = v + 2 + stacked;
+        self.plan.push_back(Action::Create(Kind::Map(F1::Lin(1, 1), top - 1)));
         let mut o = obase;
         if keep {
             self.plan.push_back(Action::Observe(v));
             o += 1;
         }
-        self.plan.push_back(Action::Observe(v + 2));
+        self.plan.push_back(Action::Observe(top));
         self.plan.push_back(Action::Stabilise);
         // a write that leaves the projection alone
         let (same, diff) = if proj == 0 {
@@ -555,7 +571,7 @@ impl Gen {
         if rng.chance(1, 2) {
             self.plan.push_back(Action::Stabilise);
         }
-        self.plan.push_back(Action::Observe(v + 2));
+        self.plan.push_back(Action::Observe(top));
         self.plan.push_back(Action::Stabilise);
         self.plan.push_back(Action::Write(vbase, same));
         self.plan.push_back(Action::Stabilise);
